@@ -251,6 +251,17 @@ def ignore_history_case(idx, payload):
     return res
 
 
+def regen_case(idx, payload):
+    """previous runs: a MATLAB toolbox regenerated into the directory of an earlier (longer or shorter) revision is byte-identical
+    to the toolbox generated into a fresh directory (the stream of props/c05.regen_case, read for this property)"""
+    from props import c05
+    r = c05.regen_case(idx, (payload[0] + 3, None))
+    res = dict(idx=idx, text=r["text"], bad=None, runs=2 if r["ran"] else 0)
+    if r["bad"] and "not the file of the new revision" in r["bad"]:
+        res["bad"] = dict(what="MATLAB output depends on an earlier run into the same directory: " + r["bad"], revisions=r["text"].split("\x1e"))
+    return res
+
+
 def run_script(args, cwd, env_extra):
     env = dict(os.environ, PYTHONPATH=REPO)
     env.update(env_extra)
@@ -273,6 +284,9 @@ def process_case(idx, payload):
     if rng.random() < 0.7:
         # non-ASCII text in a comment or in a default value: the bytes must come through under every locale
         text += rng.choice(["\n// Grüß Gott, 東京\n", "\nclass Ort { Ort(); void name(string s = \"Zürich\") const; };\n"])
+    if rng.random() < 0.6:
+        # a serialising class template with TWO arguments: its BOOST_CLASS_EXPORT goes through a generated typedef alias
+        text += "\nnamespace geoq9 { class Keyq9 { Keyq9(); };\ntemplate<K = {geoq9::Keyq9, int}, V = {double}>\nclass Tableq9 { Tableq9(); void serialize() const; };\n}\n"
     res = dict(idx=idx, text=text, bad=None, runs=0)
     base = tempfile.mkdtemp(prefix="verif_c14_")
     try:
@@ -508,7 +522,8 @@ def run(ctx, n_reuse, n_proc, off=0, collect=True):
     first = None
     for fn, n, tag in ((reuse_case, n_reuse, "reuse"), (process_case, n_proc, "process"), (history_case, n_proc * 2, "history"),
                        (xml_history_case, 12, "xml_history"), (driver_case, max(10, n_proc), "api_driver"),
-                       (shared_dir_case, max(6, n_proc // 2), "shared_dir"), (ignore_history_case, max(10, n_proc), "ignore_history")):
+                       (shared_dir_case, max(6, n_proc // 2), "shared_dir"), (ignore_history_case, max(10, n_proc), "ignore_history"),
+                       (regen_case, max(16, n_proc), "matlab_regenerate")):
         for r in fw.run_cases(fn, [(ctx.seed + off, None)] * n):
             if "crash" in r:
                 raise RuntimeError(r["crash"])
